@@ -50,7 +50,8 @@ def run(ctx):
             c = copy.deepcopy(ok[0]); c["y"][0][0][0] = (c["y"][0][0][0] + 1) % c["A"]; c["key"] = 0
             out.append(c)
         return out
-    std.m2(ctx, "c02", "Shuffle_Trace", "Shuffle_Trace.cfg", 1600 if ctx.quick else 40000, negs, shards=8, jvms=1, evkeys=KEYS)
+    std.m2(ctx, "c02", "Shuffle_Trace", "Shuffle_Trace.cfg", 1600 if ctx.quick else 40000, negs, shards=8, jvms=1, evkeys=KEYS,
+           strip=("kind", "msg", "seed"))
     if not ctx.quick:
         from .. import suite
         suite.suite_lane(ctx, ["tests/test_ersatz.py", "tests/test_ablate.py"], ["ersatz.shuffle", "ersatz.dinucleotide_shuffle"], clauses=("tensor",))
